@@ -244,7 +244,7 @@ class DictDecoder:
             return dict(value)
 
         # Repeating element, recursively bind the values
-        if not recursive and var.list_element and isinstance(value, list):
+        if not recursive and var.list_element and collections.is_array(value):
             assert var.factory is not None
             return var.factory(
                 self.bind_value(meta, var, val, recursive=True) for val in value
